@@ -40,6 +40,9 @@ def vec_of(dom, a):
             return c
         if isinstance(c, MatTerm):
             return mat_term(dom, c)
+        if isinstance(c, ND) and all(isinstance(v, (int, float, bool)) for v in c.flat):
+            # a concrete constant array (e.g. np.zeros([1, 1])): an opaque constant determined by its value
+            return z3.Const(f"ndconst{c.shape}{tuple(c.flat)}", Vec)
         raise Unsupported(f"fixed-shape array in an opaque operation at {dom.run.site}")
     if isinstance(a, (Sym, int, float, bool)):
         if isinstance(a, bool) or (isinstance(a, Sym) and a.e.sort() == B):
@@ -975,7 +978,18 @@ for _n, _r in (("np.abs", "V"), ("np.max", "R"), ("np.min", "R"), ("np.nanmin", 
                ("np.diag", "V"), ("np.tril", "V"), ("np.cumsum", "V"), ("np.argsort", "V"), ("np.dot", None),
                ("np.linalg.norm", "R"), ("np.linalg.solve", "V"), ("np.isin", "V"), ("np.transpose", "V"),
                ("np.identity", "V"), ("np.eye", "V"), ("np.arange", "V"), ("np.repeat", "V"), ("np.unique", "V"),
-               ("sp.linalg.solve_triangular", "V"), ("sp.linalg.cholesky", "V")):
+               ("sp.linalg.solve_triangular", "V"), ("sp.linalg.cholesky", "V"),
+               # further pure numpy functions a change to the package may start using (opaque in the UF domain)
+               ("np.isclose", "V"), ("np.allclose", "B"), ("np.sign", "V"), ("np.maximum", "V"), ("np.minimum", "V"),
+               ("np.nan_to_num", "V"), ("np.any", "B"), ("np.all", "B"), ("np.round", "V"), ("np.floor", "V"),
+               ("np.ceil", "V"), ("np.logical_and", "V"), ("np.logical_not", "V"), ("np.ones_like", "V"),
+               ("np.full_like", "V"), ("np.empty_like", "V"), ("np.concatenate", "V"), ("np.linalg.inv", "V"),
+               ("np.flatnonzero", "V"), ("np.take", "V"), ("np.nonzero", "V"), ("np.mean", "R"), ("np.log", "V"),
+               ("np.outer", "V"), ("np.einsum", "V"), ("np.nanmax", "R"), ("np.amax", "R"), ("np.amin", "R"),
+               ("np.absolute", "V"), ("np.fabs", "V"), ("np.negative", "V"), ("np.multiply", "V"), ("np.add", "V"),
+               ("np.subtract", "V"), ("np.divide", "V"), ("np.float64", "R"), ("np.ones", "V"), ("np.full", "V"),
+               ("np.empty", "V"), ("np.inner", "R"), ("np.vdot", "R"), ("np.trace", "R"), ("np.squeeze", "V"),
+               ("np.ravel", "V"), ("np.reshape", "V"), ("np.isnan", "V"), ("np.argmin", "I"), ("np.argmax", "I")):
     if _r is not None:
         LIB[_n] = _opaque_model(_n, _r)
 
@@ -1224,3 +1238,28 @@ def _lbfgs_inv_hess(dom, args, kw):
 @model("ndarray.flat")
 def _flat(dom, args, kw):
     raise Unsupported("call of ndarray.flat")
+
+
+@model("deque.extend")
+def _dq_extend(dom, args, kw):
+    dq, it = args
+    for v in (dom.iterate(it) if is_model(it) else list(it)):
+        LIB["deque.append"](dom, [dq, v], {})
+    return None
+
+
+@model("deque.extendleft")
+def _dq_extendleft(dom, args, kw):
+    dq, it = args
+    for v in (dom.iterate(it) if is_model(it) else list(it)):
+        LIB["deque.appendleft"](dom, [dq, v], {})
+    return None
+
+
+@model("deque.copy")
+def _dq_copy(dom, args, kw):
+    dq = args[0]
+    c = dom.run.heap[dq.ref]
+    if isinstance(c, list):
+        return dom.run.alloc_deque(list(c))
+    return dom.run.alloc_deque(SymDeque(c.a, c.lo, c.hi))
